@@ -78,6 +78,7 @@ FAMS_QUICK = "table:600,rv:24,so2:12,so3:12,se2:12,se3:10,css:10"
 FAMS_THOROUGH = "table:8000,rv:300,so2:150,so3:150,se2:150,se3:120,css:120"
 
 SPACE_STAGES = {
+    "C04": [("interp:convexity", ["interp"], False, False)],
     "C09": [("metric", ["metric"], True, False), ("metric:malformed", ["metric"], False, True)],
     "C10": [("interp", ["interp"], True, False), ("interp:malformed", ["interp"], False, True)],
     "C11": [("bounds+sampling", ["bounds", "sampling"], False, False)],
@@ -110,7 +111,7 @@ def stages(pid, tier, seed, replay):
                 args += ["--gof-n", "200000"]
             st.append({"name": name, "kind": "spaces", "args": args, "header": SP_HEADER, "fn": "check_space_array", "ref": ref})
     if pid in ("C19", "C20"):
-        n = 6 if tier == "quick" else 40
+        n = 14 if tier == "quick" else 60
         pyf = ",".join(f"py-{v}:{n}" for v in ("rv", "so2", "so3", "se2", "se3", "css"))
         if pid == "C19":
             st.append({"name": "python-vs-core:planners", "kind": "planners", "py": "planners",
